@@ -130,6 +130,9 @@ type v1Persist struct {
 }
 
 // readDisk decrypts the file the documented way, independently of package db.
+// lastClear is the clear persist document most recently decrypted by readDisk.
+var lastClear []byte
+
 func readDisk(path string, kek tink.AEAD) (string, error) {
 	bs, err := os.ReadFile(path)
 	if err != nil {
@@ -156,6 +159,7 @@ func readDisk(path string, kek tink.AEAD) (string, error) {
 	if err != nil {
 		return "", fmt.Errorf("decrypt DB: %w", err)
 	}
+	lastClear = clear
 	var p v1Persist
 	dec = json.NewDecoder(bytes.NewReader(clear))
 	dec.DisallowUnknownFields()
@@ -634,6 +638,9 @@ func traceDB(o opts) error {
 				op.caller, op.kind, hx(op.name), op.ver, hb(op.val), b01(op.aok == 1), b01(op.sok), res, ent, pre, mem, disk, w.d.WriteGen())
 			if o.profile == "persist" {
 				line += "\t" + w.reopenObs(kek)
+				if err == nil {
+					line += "\tclear=" + hb(lastClear)
+				}
 			}
 			emit("%s", line)
 			if op.aok == 0 {
